@@ -446,5 +446,18 @@ func genTrial(r *rand.Rand) *trialInput {
 			in.AsgLabels = append(in.AsgLabels, kv{k, kit.Pick(r, []string{"1", "b", "hijack"})})
 		}
 	}
+	if r.Intn(2) == 0 {
+		pv := &prevAsg{Name: in.ExpName + "-" + kit.Pick(r, []string{"prev0001", "zzz"})}
+		for _, p := range in.AsgParams {
+			pv.Params = append(pv.Params, kv{p.K, safeValue(r)})
+		}
+		for i, k := 0, r.Intn(3); i < k; i++ {
+			pv.Rules = append(pv.Rules, 1+r.Intn(3))
+		}
+		for _, k := range pickDistinct(r, []string{"algo", "parent", "generation", "fold", "team"}, 1+r.Intn(3)) {
+			pv.Labels = append(pv.Labels, kv{k, kit.Pick(r, []string{"p1", "p2", "other"})})
+		}
+		in.Prev = pv
+	}
 	return in
 }
